@@ -240,7 +240,7 @@ impl Property for C10 {
                         stitch_check("earcut", &ts, want_area, obs);
                         // the same polygon with one vertex stored twice (valid: repeated points are allowed) is the same region
                         {
-                            let sel = crate::engine::splitmix64(p.ext.len() as u64 * 0x9E37 + p.holes.len() as u64 * 31 + p.ext[0].0 as u64);
+                            let sel = crate::engine::splitmix64((p.ext.len() as u64 * 0x9E37 + p.holes.len() as u64 * 31).wrapping_add(p.ext[0].0 as u64));
                             let mut q = p.clone();
                             let k = (sel as usize) % (q.ext.len() - 1);
                             let v = q.ext[k];
